@@ -232,7 +232,7 @@ func init() {
 			return fw.Plan{
 				Level:            "exploration",
 				CrashIsViolation: true,
-				Rule: "each case runs 50 scripts through vm.ExecuteContext (debug=false) in an environment holding one value of every constructible kind plus Go functions over such values (identity, typed, variadic, multi-result, error-returning, panicking with error/string/arbitrary value, callbacks): 15% token soup from the lexer's alphabet, 45% grammar-wild templates (every production with operands chosen ignoring types, degenerate forms), 30% mutations of the repository's own scripts, 10% mutated generated programs; case 0 replays every input that crashed the pinned tree. Monitor: recover() around the call (a Go panic reaching the caller) and the parent's classifier over a worker death (panic in a script goroutine, fatal error). Non-trivial = the script parsed; distinct = distinct source text.",
+				Rule:             "each case runs 50 scripts through vm.ExecuteContext (debug=false) in an environment holding one value of every constructible kind plus Go functions over such values (identity, typed, variadic, multi-result, error-returning, panicking with error/string/arbitrary value, callbacks): 15% token soup from the lexer's alphabet, 45% grammar-wild templates (every production with operands chosen ignoring types, degenerate forms), 30% mutations of the repository's own scripts, 10% mutated generated programs; case 0 replays every input that crashed the pinned tree. Monitor: recover() around the call (a Go panic reaching the caller) and the parent's classifier over a worker death (panic in a script goroutine, fatal error). Non-trivial = the script parsed; distinct = distinct source text.",
 				Assumptions: []string{"stack/memory exhaustion and concurrent map access between script goroutines are classified from the runtime's fatal-error text and excluded, as the statement says",
 					"allocation sizes between 10^4 and 2^48 and range() over huge spans are never generated (they would exhaust memory, which is outside the guarantee)",
 					"the packages tables are not linked into this worker: import() cannot reach os.Exit/exec/sockets"},
